@@ -519,7 +519,9 @@ func c04Run(raw json.RawMessage) harn.Result {
 			}
 			for _, x := range f {
 				if x < 1 || x > c.Y {
-					panic("explorer produced an out-of-range face")
+					// the explorer offers exactly the faces the VM asks for: the VM asked for a die with other sides than the term's
+					viol("C04:sides", fmt.Sprintf("face %d was drawn for a die that has %d sides (sides asked for: %v)", x, c.Y, sidesSeen))
+					return
 				}
 			}
 			if c.X <= 100 || c.Mode != 0 {
